@@ -61,7 +61,8 @@ class C10(Check):
     expected_probes = ["outcome_array", "outcome_InvalidFormatError",
                       "kind_truncate", "kind_field_channel_offset",
                       "kind_field_block_header", "kind_jpeg_sof",
-                      "kind_misdirect", "control_ok"]
+                      "kind_misdirect", "control_ok", "kind_foreign_image",
+                      "valid_foreign_layout"]
 
     def setup_worker(self):
         from sim import simenv, simfs, simproc
@@ -92,11 +93,14 @@ class C10(Check):
                "labels": rng.choice([1, 2, 3, 5, 17, 70000, 0]),
                "storage": rng.choice(["plain", "gz", "sharded_raw",
                                       "sharded_gzip"]),
+               "blocky": rng.random() < 0.35,
                "salt": rng.randrange(1000)}
         n = rng.randint(12, 40 if tier == "thorough" else 24)
         kinds = ["truncate", "truncate", "extend", "flip", "flip", "zero",
                  "misdirect", "random", "field", "field", "field",
                  "whole_other"]
+        if enc == "jpeg":
+            kinds += ["foreign_image", "foreign_image"]
         cors = []
         for _ in range(n):
             k = rng.choice(kinds)
@@ -207,6 +211,72 @@ class C10(Check):
                              c["seed"] & 0xFFFFFFFF)
         return "field_word", bytes(buf)
 
+    def _foreign_image(self, scn, a0, c):
+        """A well-formed image of ANOTHER container / pixel type with exactly
+        the requested number of pixels (a file of the wrong kind stored under
+        the chunk's name)."""
+        import io
+        import numpy as np
+        import PIL.Image
+        nchan, sz, sy, sx = a0.shape
+        flat = a0.reshape(nchan, sz * sy, sx)
+        which = c["a"] % 6
+        if nchan == 3:
+            img = PIL.Image.fromarray(np.moveaxis(flat, 0, -1))
+            fmt = ["PNG", "TIFF", "BMP", "PNG", "TIFF", "BMP"][which]
+            if which >= 3:
+                img = img.convert("RGBA") if fmt != "BMP" else img.convert(
+                    "L")
+        else:
+            g = flat[0]
+            if which == 0:
+                img, fmt = PIL.Image.fromarray(g.astype(np.uint16)), "PNG"
+            elif which == 1:
+                img, fmt = PIL.Image.fromarray(g > 100), "PNG"
+            elif which == 2:
+                img, fmt = PIL.Image.fromarray(g.astype(np.int32)), "TIFF"
+            elif which == 3:
+                img, fmt = PIL.Image.fromarray(g.astype(np.float32)), "TIFF"
+            elif which == 4:
+                img, fmt = PIL.Image.fromarray(g), "PNG"
+            else:
+                img, fmt = PIL.Image.fromarray(g).convert("P"), "GIF"
+        buf = io.BytesIO()
+        img.save(buf, format=fmt)
+        return buf.getvalue()
+
+    def _relayout_cseg(self, valid, scn, a0):
+        """A second VALID encoding of the same array, as another encoder
+        could emit it: a uniform (0-bit) block re-uses, as its one-entry
+        table, the first entry of a later block's larger table.  Returns
+        None when the chunk offers no such pair."""
+        import numpy as np
+        itemsize = np.dtype(scn["dtype"]).itemsize
+        buf = bytearray(valid)
+        nblocks = 1
+        for d in range(3):
+            nblocks *= -(-scn["shape"][d] // scn["block"][d])
+        ch = 4 * struct.unpack_from("<I", valid, 0)[0]
+        heads = [struct.unpack_from("<II", valid, ch + 8 * i)
+                 for i in range(nblocks)]
+
+        def first_entry(i):
+            off = ch + 4 * (heads[i][0] & 0xFFFFFF)
+            return bytes(valid[off:off + itemsize])
+        for i in range(nblocks):
+            if heads[i][0] >> 24 != 0:
+                continue
+            for j in range(i + 1, nblocks):
+                if heads[j][0] >> 24 == 0:
+                    continue
+                if (heads[j][0] & 0xFFFFFF) == (heads[i][0] & 0xFFFFFF):
+                    continue
+                if first_entry(j) == first_entry(i):
+                    struct.pack_into("<I", buf, ch + 8 * i,
+                                     heads[j][0] & 0xFFFFFF)
+                    return bytes(buf)
+        return None
+
     # ------------------------------------------------------------------
     def execute(self, trace):
         import gzip as gzipmod
@@ -243,8 +313,13 @@ class C10(Check):
         def arr_for(co, salt):
             if scn["enc"] == "jpeg":
                 return dsutil.ramp(scn["nchan"], co, salt)
-            return dsutil.voxels(scn["dtype"], scn["nchan"], co, salt,
-                                 labels if scn["enc"] != "raw" else None)
+            a = dsutil.voxels(scn["dtype"], scn["nchan"], co, salt,
+                              labels if scn["enc"] != "raw" else None)
+            if scn.get("blocky") and scn["enc"] != "raw":
+                # a uniform leading region holding the smallest label
+                a = a.copy()
+                a[:, :, :, :scn["block"][0]] = a.min()
+            return a
 
         a0, a1 = arr_for(co0, scn["salt"]), arr_for(co1, scn["salt"] + 1)
         base = SimFS(log=log)
@@ -320,6 +395,26 @@ class C10(Check):
         else:
             res.probe("control_ok")
         steps = fs.total_calls
+        if scn["enc"] == "compressed_segmentation" and not res.violations:
+            alt = self._relayout_cseg(valid, scn, a0)
+            if alt is not None:
+                fs = SimFS(log=log)
+                fs.dirs[DS] = True
+                fs.put(DS + "/info", dsutil.info_bytes(info))
+                store(fs, alt)
+                st, got = read(fs)
+                res.probe("valid_foreign_layout")
+                if st == "exc" or not (got.shape == a0.shape
+                                       and np.array_equal(got, a0)):
+                    res.violate(
+                        "C10/valid-rejected",
+                        "a valid compressed_segmentation chunk in which a "
+                        "uniform block shares the first table entry of a "
+                        "later block (legal per the format, not what the "
+                        "package's own encoder emits) "
+                        + (f"was rejected: {got!r:.100}" if st == "exc"
+                           else "decoded to other values"),
+                        key="C10/valid-rejected/shared-table-prefix")
 
         for ci, c in enumerate(trace["corruptions"]):
             if res.violations:
@@ -336,6 +431,8 @@ class C10(Check):
                     label, bad = "whole_other", valid_b
                 if a_b.shape == a0.shape:
                     continue
+            elif c["kind"] == "foreign_image":
+                label, bad = "foreign_image", self._foreign_image(scn, a0, c)
             else:
                 label, bad = self._corrupt(scn, valid, other, c)
             if (bad == valid and at == co0) or (sharded and len(bad) == 0):
